@@ -24,6 +24,11 @@ def kogge_stone(a, b, cin=0):
     gen_bits = [i for i in a & b]
     prop_dist = 1
 
+    # the carry in acts as a generate signal below bit 0: fold it into bit 0's
+    # generate so that it ripples through the prefix network like any other carry
+    cin = pyrtl.as_wires(cin)
+    gen_bits[0] = gen_bits[0] | (prop_bits[0] & cin)
+
     # creation of the carry calculation
     while prop_dist < len(a):
         for i in reversed(range(prop_dist, len(a))):
@@ -35,7 +40,7 @@ def kogge_stone(a, b, cin=0):
 
     # assembling the result of the addition
     # preparing the cin (and conveniently shifting the gen bits)
-    gen_bits.insert(0, pyrtl.as_wires(cin))
+    gen_bits.insert(0, cin)
     return pyrtl.concat_list(gen_bits) ^ prop_orig
 
 
